@@ -26,9 +26,11 @@ Time2Dom == {NULL, TV(2020, 2, 28, 23, 0, 0), TV(2020, 1, 1, 0, 0, 0), TV(2021, 
 DateDom == {NULL, <<"d", 2019, 12, 31>>, <<"d", 2020, 2, 29>>, <<"d", 2021, 1, 1>>}
 TodDom  == {NULL, <<"tod", 0, 0, 0>>, <<"tod", 10, 5, 0>>, <<"tod", 23, 59, 59>>}
 DurDom  == {NULL, <<"dur", -60>>, <<"dur", 0>>, <<"dur", 3600>>, <<"dur", 86400>>}
+G1 == "AAAAAAAA-0000-4000-8000-00000000000A"   G2 == "bbbbbbbb-0000-4000-8000-00000000000b"   G3 == "cccccccc-0000-4000-8000-00000000000c"
+GuidDom == {NULL, SV(StrCps(G1)), SV(StrCps(G2))}        \* stored as text, one spelled in upper case
 ColDom == [n |-> IntDom, m |-> IntDom, s |-> StrDom, u |-> StrDom, b |-> BoolDom, d |-> TimeDom,
-           e |-> Time2Dom, dd |-> DateDom, tt |-> TodDom, du |-> DurDom]
-ColOrder == <<"n", "m", "s", "u", "b", "d", "e", "dd", "tt", "du">>
+           e |-> Time2Dom, dd |-> DateDom, tt |-> TodDom, du |-> DurDom, g |-> GuidDom]
+ColOrder == <<"n", "m", "s", "u", "b", "d", "e", "dd", "tt", "du", "g">>
 
 nC == Id0("n")  mC == Id0("m")  sC == Id0("s")  uC == Id0("u")  bC == Id0("b")  dC == Id0("d")
 HB == Hole("B")  HI == Hole("I")  HS == Hole("S")  HT == Hole("T")
@@ -47,6 +49,9 @@ ExpandLogic(h) ==
 ExpandArith(h) ==
   CASE h = "B" -> { <<0, Cmp(o, HI, a)>> : o \in {"eq", "lt", "ge", "ne"}, a \in {IntL(1), mC} }
                   \cup { <<0, Cmp("gt", IntL(0), HI)>>, <<0, Cmp("in", HI, Lst(<<IntL(-2), IntL(3)>>))>> }
+                  \* a grouped right operand EQUAL to the left operand (value-based node equality must not confuse the two sides)
+                  \cup { <<0, Cmp(o, Bin("sub", X, X), IntL(0))>> : o \in {"eq", "lt"}, X \in {Bin("sub", nC, mC), Bin("add", nC, IntL(1))} }
+                  \cup { <<0, Cmp("eq", Bin("sub", IntL(1), Bin("sub", IntL(1), nC)), mC)>> }
                   \cup { <<0, Cmp(o, Hole("N"), c)>> : o \in {"eq", "lt", "ge"}, c \in {FL("0.5"), FL("1.5"), FL("2.5"), IntL(1)} }
                   \* literals written with an exponent: tiny, negative, upper-case E, explicit sign
                   \cup { <<0, Cmp(o, HI, c)>> : o \in {"lt", "gt"}, c \in {FL("2.5e-1"), FL("1E3"), FL("1.5e+1")} }
@@ -60,6 +65,8 @@ ExpandArith(h) ==
     [] h = "I" -> { <<0, x>> : x \in {nC, mC, IntL(-2), IntL(1), IntL(3)} }
                   \cup { <<1, Bin(o, HI, HI)>> : o \in {"add", "sub", "mul"} }
                   \cup { <<1, Bin(o, HI, IntL(k))>> : o \in {"div", "mod"} \ (IF Backend = "sqlalchemy" THEN {"div"} ELSE {}), k \in {2, -2} }
+                  \* a chain of one non-commutative operator with different right operands
+                  \cup { <<1, Bin("mod", Bin("mod", HI, IntL(3)), IntL(2))>>, <<1, Bin("sub", Bin("sub", HI, IntL(3)), mC)>> }
                   \cup (IF Backend = "sqlite" THEN { <<1, Un("neg", HI)>> } ELSE {})
 ExpandStrings(h) ==
   CASE h = "B" -> { <<0, C2(f, HS, p)>> : f \in {"contains", "startswith", "endswith"},
@@ -73,6 +80,8 @@ ExpandStrings(h) ==
                   \cup { <<0, Cmp(o, C1("toupper", HS), SL(<<65, 66>>))>> : o \in {"eq", "ne", "lt"} }
     [] h = "S" -> { <<0, x>> : x \in {sC, uC, SL(<<97>>), SL(<<37>>)} }
                   \cup { <<1, C2("concat", HS, HS)>>, <<1, C1("tolower", HS)>>, <<1, C1("trim", HS)>> }
+                  \* left- and right-nested concatenation with a separator (order and grouping both matter)
+                  \cup { <<1, C2("concat", C2("concat", HS, SL(<<45>>)), uC)>>, <<1, C2("concat", sC, C2("concat", SL(<<45>>), HS))>> }
                   \cup { <<1, C2("substring", HS, IntL(k))>> : k \in {0, 1, 2} }
                   \cup { <<1, Call(Id0("substring"), <<HS, IntL(k), IntL(j)>>)>> : k \in {0, 1}, j \in {0, 1, 2} }
 ExpandMisc(h) ==
@@ -89,6 +98,10 @@ ExpandMisc(h) ==
                                        Cmp("ne", C2("startswith", sC, uC), C2("contains", uC, SL(<<97>>))),
                                        Cmp("eq", Cmp("gt", nC, IntL(0)), Cmp("gt", mC, IntL(0))),
                                        Cmp("eq", Cmp("eq", nC, IntL(1)), BoolL("true")) } }
+                  \* GUID literals against a text column (literals spelled exactly as stored, or a different GUID)
+                  \cup (IF Backend = "django" THEN {}
+                        ELSE { <<0, Cmp(o, Id0("g"), Lit("GUID", x))>> : o \in {"eq", "ne"}, x \in {G1, G2, G3} }
+                             \cup { <<0, Cmp("in", Id0("g"), Lst(<<Lit("GUID", G3), Lit("GUID", G1)>>))>>, <<0, Cmp("eq", Lit("GUID", G1), Id0("g"))>> })
                   \cup { <<0, Cmp(o, C1(f, dC), IntL(k))>> : o \in {"eq", "gt"},
                            <<f, k>> \in {<<"year", 2020>>, <<"month", 2>>, <<"day", 29>>, <<"hour", 10>>, <<"minute", 59>>} }
                   \cup { <<1, Bool("and", HB, HB)>>, <<1, Bool("or", HB, HB)>>, <<1, Un("not", HB)>> }
